@@ -12,7 +12,7 @@ def run(c):
               "from the same task (W<n>, yield), from a second real component task (its body wakes the captured waker inside its own callback), "
               "from outside any task (K<n>), from destructors during cancellation (g<n>), after exit; interleaved with import calls, "
               "subtask events, EVENT_CANCEL; driver start and block_on; non-trivial = some callback answered WAIT or YIELD; distinct by trace")
-    n = 6000 if c.tier == "quick" else 100000
+    n = 6000 if c.tier == "quick" else 400000
     maxbody = 10 if c.tier == "quick" else 16
     exec_common.run_exec(c, "C23", ["inter-task-wakeup"], n, maxbody, "Witverif.Props.C23")
     c.assumptions += [
